@@ -131,6 +131,8 @@ class Sym(numbers.Real):
         return Sym(c=_to_frac(o))
 
     def _bin(self, o, rev, op):
+        if o is np.ma.masked:  # masked in -> masked out (numpy.ma semantics)
+            return np.ma.masked
         if isinstance(o, Sym):
             b = o
         else:
